@@ -392,7 +392,8 @@ impl Renderer {
         let p = self.probe_words(m);
         match a {
             -2 => p,
-            -1 => format!("{p}; exit"),
+            // (`! :` changes $? inside the action: `exit` must not use that value)
+            -1 => format!("{p}; ! :; exit"),
             n => format!("{p}; exit {n}"),
         }
     }
@@ -604,7 +605,7 @@ impl Renderer {
     }
 
     /// The whole program with its prelude.  `e`: errexit; `t`: EXIT trap set
-    /// before the program (1: `probe 0`, 2: `probe 0; exit 7`, 3: `probe 0; exit`).
+    /// before the program (1: `probe 0`, 2: `probe 0; exit 7`, 3: `probe 0; ! :; exit`).
     pub fn program(&mut self, root: &Node, e: bool, t: i64) -> Rendered {
         let real = self.mode == Mode::Real;
         let mut flags: Vec<String> = vec![];
